@@ -41,14 +41,43 @@ SUMMARY = {
     "C15-B": ("on_connection generator driver ignores the timeout of later yields", "on_connection generator with ≥ 2 yields whose timeouts differ"),
     "C16-A": ("__client_coroutine: finally → except BaseException/else (no respawn after an exception)", "handler generator ending with CancelledError + datagrams queued behind it"),
     "C16-B": ("per-datagram guard forgets the TASK_PENDING state", "datagram handled between 'old task finished with non-empty queue' and 'respawned task started'"),
-    "C17-A": ("", ""),
-    "C17-B": ("", ""),
+    "C17-A": ("servers/misc.py: context managers swapped so on_disconnection() runs outside the per-client exception guard", "a non-ConnectionError raised by one client's on_disconnection()"),
+    "C17-B": ("lowlevel/constants.py: lost comma drops ECONNABORTED and EPROTO from IGNORABLE_ACCEPT_ERRNOS", "accept() failing with ECONNABORTED/EPROTO (connection aborted in the listen queue)"),
+    # ---- round 2 (authors were told the round-1 ideas and asked for different ones)
+    "C05-C": ("MAX_DATAGRAM_BUFSIZE 64 KiB → 65507 (IPv4 maximum)", "blocking path, IPv6, a datagram of 65508–65527 bytes"),
+    "C05-D": ("SocketDatagramTransport.send_noblock swallows ConnectionRefusedError", "a pending ICMP error at send time: send_packet returns normally with zero datagrams"),
+    "C11-C": ("sendmsg path: remaining timeout dropped across partial writes (same edit as C04-A)", "a plain-TCP send that blocks at least twice, each wait < T, sum > T"),
+    "C11-D": ("TCPNetworkClient.recv_packet: endpoint.is_closed() → self.is_closed() (takes the send lock, no timeout)", "another thread stuck in send_packet holding the send lock while recv_packet(timeout=0|T) is called"),
+    "C12-C": ("TLS __write_all_to_ssl_object pops the chunk before ssl.write(), re-queues only the unsent tail", "SSLObject.write() raising WantRead/WantWrite mid-packet — unreachable with real OpenSSL over a MemoryBIO after the handshake (author used a fake TLS engine)"),
+    "C12-D": ("FairLock.acquire(): cancellation handler always wakes the next waiter", "owner suspended mid-packet, ≥ 2 queued senders, one queued sender cancelled"),
+    "C13-C": ("__deliver_cancellation no longer skips task.cancel() while an undelivered request exists → overwrites a pending external cancel", "external task.cancel() after the awaited future is done but before the task resumes, scope cancelled in the same iteration"),
+    "C13-D": ("__deliver_cancellation keeps a stale __cancel_handle when a delivery round gives up", "nested scopes both cancelled (inner first), two consecutive shielded checkpoints inside the inner scope, then the inner scope exits"),
+    "C14-C": ("server-side client aclose(): force-close handler only around the inner aclose, not around the lock wait", "a sender holding the send lock, aclose() cancelled while waiting for it"),
+    "C14-D": ("adapter aclose(): `await asyncio.shield(close_waiter)` → `await close_waiter`", "cancelled close with queued data (no abort), then any later aclose() raises a spurious CancelledError"),
+    "C15-C": ("_RequestReceiver.next: timeout scope moved around each recv() (idle timeout)", "first chunk of a frame before the deadline, its end after — only removes a TimeoutError that should fire (the converse of the statement)"),
+    "C15-D": ("servers/misc.py: handle() restart loop checks is_closing() only once", "handler closes the client and its generator then ends: handle() is started once more on the closed client"),
+    "C16-C": ("datagram client loop: backlogged datagram popped, then a NON-shielded yield inside the timeout scope", "per-client backlog + handler polling with `yield 0`"),
+    "C16-D": ("DatagramListenerProtocol.serve: shield dropped", "low-level history serve → cancel → serve again on the same listener"),
+    "C17-C": ("async_tcp.py __client_initializer: `return` after `yield None` on the no-peer-address branch dropped", "peer RST before the client task starts (getpeername → ENOTCONN): TypeError reaches the server task group"),
+    "C17-D": ("datagram client loop: pop_datagram_no_wait() moved into the else branch", "UDP handler ending before its first yield: the datagram is replayed to fresh generators (endless respawn)"),
+    "C18-C": ("NetworkServerThread.run(): `finally: is_up_event.set()` → only on exception", "shutdown() from another thread landing in the start-up window: start() blocks forever"),
+    "C18-D": ("standalone serve_forever(): 'already running' check (bootstrap lock) before the 'closed' check (close lock) → lock-order inversion with server_close()", "server_close() entering exactly between the two lock acquisitions of a concurrent serve_forever()"),
+    "C19-C": ("AsyncTCPNetworkClient.__ensure_connected takes the one-shot connector before the awaited get()", "aclose() from another task while a connect attempt is pending: nothing is cancelled, the client connects after aclose() returned"),
+    "C19-D": ("_interleave_addrinfos: zip_longest → zip drops the tail of the longer family", "mixed-family list with unequal counts and only a tail address reachable"),
+    "C20-C": ("send_all_from_iterable: calls protocol.pause_writing() itself instead of re-applying the limits → resume_writing never delivered", "writelines path, peer stalls then reads again, no concurrent send_all in between"),
+    "C20-D": ("adapter aclose(): abort guard `not close_waiter.done()` → `not transport.is_closing()` (never aborts)", "suspended sender, aclose() cancelled with a non-reading peer: the sender hangs"),
     "C18-A": ("standalone serve_forever: is_shutdown published before the lock is re-acquired and the portal reset", "restart from another thread right after shutdown(), old thread pre-empted between the two tear-down callbacks"),
     "C18-B": ("async shutdown() returns early when the run scope is None", "a shutdown() issued during a tear-down that takes time"),
     "C19-A": ("_staggered_race_connection_impl: except BaseException → except Exception (winner not closed on cancel)", "cancel issued before the winning attempt's task step, caller resumed after it in the same loop pass"),
     "C19-B": ("_create_connection_impl: 'no matching local address' no longer closes the socket", "local_address set + a remote address whose family is missing from the local addresses"),
     "C20-A": ("drain(): connection-lost check before the closing-yield (same edit as C04-B)", "the connection dies during the send itself"),
     "C20-B": ("waiter done-callback: remove → popleft", "≥ 2 suspended senders, cancellation of a non-head one, then resume or connection loss"),
+}
+
+
+EXPECTED_SURVIVE = {
+    "C12-C": "needs SSLObject.write() to raise SSLWantRead/WantWrite in the middle of a packet; real OpenSSL over a MemoryBIO never does that after the handshake (probed by two harness authors; the stdlib offers no renegotiation/KeyUpdate trigger). The author's demo uses a fake TLS engine. Recorded as unreachable for a simulation that runs the real ssl module.",
+    "C15-C": "only removes a TimeoutError that should fire; the property states the other direction only ('TimeoutError only if no complete request arrived in time'), so a check that demanded it would go beyond the statement.",
 }
 
 
@@ -61,9 +90,13 @@ def main() -> None:
         if breaks:
             m["breaks"] = breaks
             m["needs_to_manifest"] = needs
+        if sid in EXPECTED_SURVIVE:
+            m["expected"] = "survived"
+            m["why_not_killed"] = EXPECTED_SURVIVE[sid]
         json.dump(m, open(mp, "w"), indent=1)
         keys = ", ".join(k.split("/", 1)[1] if "/" in k else k for k in m.get("check_keys", [])[:2])
-        rows.append(f"| {sid} | {m['property']} | {m.get('breaks', '')} | {m.get('needs_to_manifest', '')} | {m.get('result')} ({m.get('check_wall_s', '?')} s){': ' + keys if keys else ''} |")
+        other = "; also: " + ", ".join(f"{k} exit {v['exit']}" for k, v in m.get("other_checks", {}).items()) if m.get("other_checks") else ""
+        rows.append(f"| {sid} | {m['property']} | {m.get('breaks', '')} | {m.get('needs_to_manifest', '')} | {m.get('result')} ({m.get('check_wall_s', '?')} s){': ' + keys if keys else ''}{other} |")
     print("| id | property | change | needs | our check |")
     print("|---|---|---|---|---|")
     print("\n".join(rows))
